@@ -52,7 +52,8 @@ impl Report {
     }
   }
   pub fn fail(&mut self, kind: &'static str, what: &str, case: Value, detail: String) {
-    if self.failures.len() < 200 {
+    // capped per kind: a flood of model disagreements must not crowd out the property failures found later
+    if self.failures.iter().filter(|f| f.kind == kind).count() < 200 {
       self.failures.push(Failure { kind, what: what.into(), case, detail });
     }
   }
